@@ -13,6 +13,8 @@
 (***************************************************************************)
 EXTENDS Integers, Sequences, FiniteSets, TLC, Json, IOUtils, Tiling
 
+SS == INSTANCE SignSubtree WITH MaxN <- 0, case <- 0
+
 Trace == ndJsonDeserialize(IOEnv.VERIF_TRACE)
 
 VARIABLES l, tab,
@@ -193,8 +195,7 @@ AddCheckpointResp(r, d) ==
         \cup F("C14.NoSignatureOnRefusal", Len(e.sigs) = 0)
 
 SubtreeResp(r, d) ==
-    LET ok == d.known /\ d.validRange /\ d.end <= d.newN /\ d.hashOk /\ d.proofOk
-        entitled == IF ok THEN SeqRange(d.cosigners) ELSE {}
+    LET entitled == SS!Entitled(SeqRange(d.cosigners), d.start, d.end, d.newN, d.hashOk, d.proofOk, d.known)
         got == {s.key : s \in {x \in SeqRange(e.sigs) : x.valid}}
     IN F("C16.OnlyEntitledSigners", got \subseteq entitled)
        \cup F("C16.OnlyValidSignatures", \A s \in SeqRange(e.sigs) : s.valid)
